@@ -50,6 +50,13 @@ func VerifHarness_C13_EnumLookup() {
 	if !rt.Named {
 		verifAssert("unnamed-type-is-no-enum", !e.OK)
 	}
+	// history: the answer for one configuration does not depend on an earlier question about the same type under
+	// another configuration (enum detection switched off / the type excluded elsewhere)
+	other := &enum.Config{Enabled: !cfg.Enabled}
+	e2 := TypeOf(t).Enum(other)
+	verifAssert("disabled-detection-finds-no-enum-whatever-was-asked-before", other.Enabled || !e2.OK)
+	e3 := TypeOf(t).Enum(&enum.Config{Enabled: cfg.Enabled})
+	verifAssert("same-configuration-same-answer", e3.OK == e.OK)
 }
 
 // VerifHarness_C13_RecursiveTypes: self-referencing and mutually recursive named types of every constructor
